@@ -73,7 +73,16 @@ class Gen16(histgen.HistGen):
       self.pend(st['tableId'], cid, 10)
       return ['AddColumn', st['tableId'], cid, {'type': 'Any', 'isFormula': True,
                                                'formula': self.formula(meta, st['id'], 10)}]
-    return histgen.HistGen.gen(self, kind, meta)
+    a = histgen.HistGen.gen(self, kind, meta)
+    if a is not None and kind in ('addref', 'addcol') and a[0] == 'AddColumn' and self.r.random() < 0.25:
+      # a column named like a TABLE (the reference's target, the table itself, or any other table)
+      ids = [t['tableId'] for t in meta.user_tables()]
+      target = a[3].get('type', '').split(':', 1)[1] if ':' in a[3].get('type', '') else None
+      name = target if (target in ids and self.r.random() < 0.6) else self.r.choice(ids)
+      if name.isidentifier():
+        a[2] = name
+        self.pend(a[1], name, 0)
+    return a
 
   def formula(self, meta, tref, level):
     tid = meta.tables[tref]['tableId']
@@ -727,6 +736,73 @@ def run_layout(seed, nsteps, collect=False):
       return
 
 
+def run_namesake(seed, nren):
+  """Column ids that coincide with TABLE ids: a table has a column named like another table (a Ref to it, or plain) and
+  like itself, and its formulas mention those tables by name (T.lookupRecords / lookupOne / .all) next to the columns
+  ($T, rec.T.x).  Table names and column names live in different scopes of the generated module; renaming the table
+  must rewrite the table tokens only, renaming the column the column tokens only."""
+  rng = random.Random(seed)
+  P, O = rng.sample(['People', 'Orders', 'Items', 'Tt', 'Deals'], 2)
+  k, v, q = rng.sample(['name', 'amount', 'A', 'B', 'kind', 'qty'], 3)
+  col = lambda i, t: {'id': i, 'type': t, 'isFormula': False}
+  done = [
+    [['AddTable', P, [col(k, 'Text'), col(v, 'Int')]]],
+    [['AddTable', O, [col(q, 'Text'), col(P, 'Ref:' + P)]]],          # Orders.People : Ref:People
+    [['AddColumn', O, O, {'type': rng.choice(['Int', 'Text']), 'isFormula': False}]],     # Orders.Orders
+    [['AddColumn', P, P, {'type': 'Int', 'isFormula': False}]],       # People.People
+    [['AddColumn', P, O, {'type': 'RefList:' + O, 'isFormula': False}]],                   # People.Orders : RefList:Orders
+    [['BulkAddRecord', P, [None] * 3, {k: ['a', 'b', 'a'], v: [1, 2, 3], P: [7, 8, 9]}]],
+    [['BulkAddRecord', O, [None] * 3, {q: ['a', 'b', 'c'], P: [1, 2, 0]}]],
+    [['BulkUpdateRecord', P, [1, 2], {O: [['L', 1, 2], ['L', 3]]}]],
+  ]
+  n = dict(P=P, O=O, k=k, v=v, q=q)
+  in_o = ['len({P}.lookupRecords({k}=${q}))', '{P}.lookupOne({k}=${q}).{v}', '${P}.{v}', 'rec.{P}.{k}',
+          '[r.{v} for r in {P}.all]', '{P}.lookupOne({P}=7).{k}', 'len({O}.lookupRecords({P}=${P}))',
+          'SUM(r.{P} for r in {P}.all) + len({O}.all)', '{O}.lookupOne({O}=${O}).id', '${O}',
+          '{P}.lookupOne({k}=${q}, order_by="-{P}").{P}']
+  in_p = ['${P} + len({P}.all)', 'len({O}.lookupRecords({P}=rec))', 'list(${O}.{q})', '{P}.lookupOne({P}=${P}).id',
+          '[r.{O} for r in {O}.all]', 'len(${O}) + ${P}']
+  for i, f in enumerate(rng.sample(in_o, rng.randint(5, len(in_o)))):
+    done.append([['AddColumn', O, 'f%d' % i, {'type': 'Any', 'isFormula': True, 'formula': f.format(**n)}]])
+  for i, f in enumerate(rng.sample(in_p, rng.randint(3, len(in_p)))):
+    done.append([['AddColumn', P, 'g%d' % i, {'type': 'Any', 'isFormula': True, 'formula': f.format(**n)}]])
+
+  def build(bs):
+    e, _ = G.new_doc()
+    for bundle in bs:
+      try_apply(e, None, bundle)
+    return e
+  e = build(done)
+  fresh = ['Persons', 'Clients', 'Zz', 'X9', 'Sales', 'w_1', 'Units', 'Buyers']
+  rng.shuffle(fresh)
+  for i in range(nren):
+    m = histgen.Meta(e)
+    tabs = m.user_tables()
+    if not tabs:
+      break
+    new = fresh[i % len(fresh)] + ('' if i < len(fresh) else str(i))
+    # renames of the tables, and of the columns named like a table, come first
+    namesakes = [(t, c) for t in tabs for c in m.data_cols(t['id']) if c['colId'] in m.table_by_id]
+    kind = ['RenameTable', 'namesake', 'tableId', 'namesake'][i] if i < 4 else rng.choice(['RenameTable', 'namesake', 'col'])
+    if kind in ('RenameTable', 'tableId'):
+      t = rng.choice(tabs)
+      path = kind
+      act = ['RenameTable', t['tableId'], new] if kind == 'RenameTable' else \
+            ['UpdateRecord', '_grist_Tables', t['id'], {'tableId': new}]
+    else:
+      t, c = rng.choice(namesakes) if (kind == 'namesake' and namesakes) else \
+             (lambda tt: (tt, rng.choice(m.data_cols(tt['id']))))(rng.choice([x for x in tabs if m.data_cols(x['id'])]))
+      path = rng.choice(['RenameColumn', 'label'])
+      act = ['RenameColumn', t['tableId'], c['colId'], new] if path == 'RenameColumn' else \
+            ['UpdateRecord', '_grist_Tables_column', c['id'], {'label': new}]
+    status, info, problems = check_rename(e, act, list(done), True)
+    yield list(done), path, act, status, info, problems, None
+    if problems:
+      e = build(done)
+    else:
+      done.append([act])
+
+
 def replay(ctx, w):
   """Re-runs a recorded scenario: the bundles (failures ignored, document cleaned), then the rename."""
   e, _ = G.new_doc()
@@ -847,7 +923,8 @@ def run_streams(ctx):
   plan = [('main', 'random', ctx.n(18, 320)), ('main', 'directed', ctx.n(1, 12)),
           ('clash', 'directed', ctx.n(1, 6)), ('gaps', 'directed', ctx.n(1, 6)),
           ('clash', 'random', ctx.n(1, 30)), ('gaps', 'random', ctx.n(1, 30)),
-          ('sisters', 'sisters', ctx.n(3, 40)), ('layout', 'layout', ctx.n(8, 150))]
+          ('sisters', 'sisters', ctx.n(3, 40)), ('layout', 'layout', ctx.n(8, 150)),
+          ('namesake', 'namesake', ctx.n(3, 40))]
   out = []
   # the witnesses of the FIXED findings stay in the corpus and run first: the rename must now be rejected without trace
   for k in core.load_known():
@@ -871,6 +948,8 @@ def run_streams(ctx):
         it = run_history(seed, stream, 8, 5, collect=collect)
       elif mode == 'sisters':
         it = run_sisters(seed, ctx.n(3, 6))
+      elif mode == 'namesake':
+        it = run_namesake(seed, ctx.n(4, 8))
       elif mode == 'layout':
         it = run_layout(seed, ctx.n(4, 10), collect=collect)
       else:
